@@ -103,8 +103,9 @@ TEXT["C06"] = {
             "policy and float oracle; the block loop provably terminates (explicit fuel bound); every "
             "generate_next_primes block is a non-empty run of consecutive primes continuing the previous block. Tied to "
             "StorePrimes.hpp / api-c.cpp by the store stream: all 8 C++ element types and all 14 C type codes at their own "
-            "limits, prefilled vectors, n on block edges, top of the range. Partial: store_n_primes is modelled and tied "
-            "by the stream, its theorem is not proved.",
+            "limits, prefilled vectors, n on block edges, top of the range. store_n_primes: for every n, start, type and "
+            "block policy it appends exactly the first n primes >= start when the n-th fits the element type and 64 bits, "
+            "and otherwise throws having appended an exact prefix (loop invariant over the block loop).",
     "design_ref": "DESIGN.md section 8 C06", "note": _IGEN,
     "technique": "Lean 4 proof (loop invariant over the iterator refinement) + model/implementation correspondence"}
 
